@@ -106,6 +106,22 @@ pub fn run(rng: &mut Rng, out: &mut Fails) {
     if !sym.is_symmetric() || asym.is_symmetric() { fail(out, "Matrix::is_symmetric", "C15.pred", "2x2".into(), "wrong".into(), "per definition".into()); }
     let up = Matrix::new(vec![1., 2., 0., 5.], 2, 2);
     if !up.is_upper_triangular() || up.is_lower_triangular() || !up.t().is_lower_triangular() { fail(out, "Matrix::is_upper/lower_triangular", "C15.pred", "[[1,2],[0,5]]".into(), "wrong".into(), "per definition".into()); }
+    // is_design: first column equal to one within machine epsilon, for every row; Vector::diff: first differences
+    for (rows, cols) in [(1usize, 1usize), (3, 2), (4, 3), (2, 5)] {
+        for bad in 0..=rows {
+            let mut d: Vec<f64> = (0..rows * cols).map(|k| if k % cols == 0 { 1.0 } else { 0.5 + k as f64 }).collect();
+            if bad < rows { d[bad * cols] = 1.0 + 1e-9; }
+            let want = bad == rows;
+            let got = compute::linalg::is_design(&d, rows);
+            if got != want { fail(out, "is_design", "C15.is_design", format!("{}x{} with row {} off by 1e-9 (row {} = none)", rows, cols, bad, rows), format!("{}", got), format!("{}", want)); }
+        }
+    }
+    for n in 1..8usize {
+        let a: Vec<f64> = (0..n).map(|k| ((k * k) as f64) - 2.0 * k as f64).collect();
+        let want: Vec<f64> = (1..n).map(|k| a[k] - a[k - 1]).collect();
+        let got = Vector::new(a.clone()).diff();
+        if !same_vec(&got.v, &want) { fail(out, "Vector::diff", "C15.diff", format!("{:?}", a), format!("{:?}", got.v), format!("{:?}", want)); }
+    }
     // Matrix::with_capacity: "an empty matrix with a certain capacity" (never a panic; empty and well-formed)
     for (r, c) in [(0usize, 0usize), (0, 3), (2, 3), (1, 1), (5, 4)] {
         match catch(|| Matrix::with_capacity(r, c)) {
